@@ -185,6 +185,9 @@ impl Stats {
     }
     for l in &o.labels {
       *self.labels.entry(l).or_insert(0) += 1;
+      if *l == "excluded-known" {
+        self.excluded_known += 1;
+      }
     }
     for n in &o.notes {
       *self.notes.entry(n.clone()).or_insert(0) += 1;
@@ -227,13 +230,25 @@ fn start_watchdog(id: &'static str) {
   });
 }
 
+fn slow_threshold() -> Option<u64> {
+  static T: once_cell::sync::OnceCell<Option<u64>> = once_cell::sync::OnceCell::new();
+  *T.get_or_init(|| std::env::var("RXV_SLOW").ok().and_then(|s| s.parse().ok()))
+}
+
 fn run_one(run: CaseFn, c: &mut dyn Choices, ctx: &Ctx) -> Outcome {
   beat();
   // single-thread engines: a re-lock of a held MutArc is a self-deadlock verdict, not a hang
   if crate::hooks::mode() == crate::hooks::ThreadMode::Unmanaged {
     crate::hooks::set_mode(crate::hooks::ThreadMode::Solo);
   }
-  match guarded(|| run(c, ctx)) {
+  let t0 = Instant::now();
+  let r = guarded(|| run(c, ctx));
+  if let Some(ms) = slow_threshold() {
+    if t0.elapsed().as_millis() as u64 >= ms {
+      eprintln!("SLOW case {} ms picks={:?}", t0.elapsed().as_millis(), c.record());
+    }
+  }
+  match r {
     Ok(o) => o,
     Err(msg) => Outcome {
       verdict: Verdict::Violation { sig: "harness-panic".into(), detail: format!("uncaught panic in case runner: {msg}") },
